@@ -7,6 +7,7 @@ variable; every IR op is flattened into micro-ops that each look at / change ONE
     incref v      decref v x      steal v      stealMaybe v      use v      useMaybe v
     move d s      (Assign d := s — Assign.stolen() = [src])
     assumeNull v  assumeOk v      (on the edges of `Branch IS_ERROR`, and where a C contract says so)
+    clobber v                     (borrow safety, see below)
 
 Rules (taken from the exported metadata — `sources()`, `stolen()`, `is_borrowed`, `error_kind`, `is_xdec`,
 `returns_null` of mypyc/ir/ops.py — i.e. what `mypyc/transform/refcount.py` itself relies on):
@@ -21,6 +22,16 @@ Rules (taken from the exported metadata — `sources()`, `stolen()`, `is_borrowe
     the stored operand of `SetAttr` (storing the error value is how attributes are *undefined*) and `Return`'s
     operand may be the error value (`useMaybe` / `stealMaybe` / the return rule);
   * `Branch IS_ERROR v`: `assumeNull v` on the error edge, `assumeOk v` on the other;
+  * **side condition on `GetAttr`** (decided against the ClassIR tables exported with the op, not against what the
+    exception transform concluded): a `GetAttr` whose `error_kind` is ERR_NEVER (no error branch follows) may be
+    taken as non-NULL only if the attribute is in `_always_initialized_attrs` AND not `__deletable__` anywhere in
+    the MRO (or it is a spill slot / `allow_error_value` read that the IR tests itself); otherwise its result is
+    `maybe` and every dereferencing use of it is stuck;
+  * **borrow safety**: a value borrowed from the heap (`GetAttr` / `LoadMem` / `CallC` with `is_borrowed`, and
+    borrowed `Cast`s of such values) stays valid only as long as its owner cannot have been rebound: every op that
+    may run arbitrary code (`Call`, `MethodCall`, `CallC` outside `NON_REBINDING_CALLC`, a non-initialising
+    `SetAttr` of a refcounted attribute) emits `clobber v` for every such value `v` of the function: afterwards
+    `v` is usable only through references the frame itself owns;
   * out-parameters (`LoadAddress` of a refcounted register) are modelled only for the C contracts in
     `OUT_PARAM_CONTRACTS`; any other consumer of such an address makes the function UNMODELLED (counted as
     `skipped`, never accepted). The same for op classes outside `MODELLED_OPS` and odd `Assign` shapes.
@@ -37,8 +48,9 @@ ERR_NEVER, ERR_MAGIC, ERR_FALSE, ERR_ALWAYS, ERR_MAGIC_OVERLAPPING = 0, 1, 2, 3,
 OWNED, MAYBE, BORROWED, MAYBE_BORROWED, NULL, IMM = range(6)
 KIND_NAMES = ["owned", "maybe", "borrowed", "maybeBorrowed", "null", "imm"]
 # micro-op codes (must agree with Driver/C06.lean)
-DEFINE, INCREF, DECREF, STEAL, STEAL_MAYBE, USE, USE_MAYBE, MOVE, ASSUME_NULL, ASSUME_OK = range(10)
-OP_NAMES = ["define", "incref", "decref", "steal", "stealMaybe", "use", "useMaybe", "move", "assumeNull", "assumeOk"]
+DEFINE, INCREF, DECREF, STEAL, STEAL_MAYBE, USE, USE_MAYBE, MOVE, ASSUME_NULL, ASSUME_OK, CLOBBER = range(11)
+OP_NAMES = ["define", "incref", "decref", "steal", "stealMaybe", "use", "useMaybe", "move", "assumeNull", "assumeOk",
+            "clobber"]
 # argument kinds
 ARG_BORROWED, ARG_OPTIONAL = 0, 1
 
@@ -70,6 +82,32 @@ NULLABLE_CALLC_ARGS = {
 # op classes whose result can be the error value even when `error_kind` says ERR_NEVER (then the IR tests it)
 CAN_BE_NULL_WHEN_TESTED = {"Call", "MethodCall", "CallC", "GetAttr", "LoadStatic", "LoadMem", "LoadGlobal", "GetElement"}
 SPILL_ATTR_PREFIX = "__mypyc_temp__2_"          # mypyc/transform/spill.py: f"{TEMP_ATTR_NAME}2_{i}"
+
+
+# ops with `is_borrowed` whose result points into the heap (an attribute slot, a container item)
+HEAP_BORROW_OPS = {"GetAttr", "LoadMem", "CallC"}
+# C primitives that cannot run arbitrary Python code / rebind attributes or container items while they run
+# (int / float / str arithmetic and comparisons on exact built-in types, pure inspectors)
+NON_REBINDING_CALLC_PREFIXES = ("CPyTagged_", "CPyFloat_", "CPyLong_", "CPyStr_", "CPyBytes_", "CPyBool_")
+NON_REBINDING_CALLC: set[str] = {
+    "CPyList_GetItemShortBorrow", "CPyList_GetItemBorrow", "CPyList_GetItemInt64Borrow", "CPyList_GetItemUnsafe",
+    "CPySequenceTuple_GetItemUnsafe", "CPy_NoErrOccurred", "CPy_KeepPropagating",
+}
+# borrowed CallC results that do not point into a rebindable slot (a type object computed from live types)
+NON_SLOT_BORROW_CALLC = {"CPy_CalculateMetaclass"}
+
+
+def may_rebind(op: dict) -> bool:
+    """May this op run arbitrary code (and so rebind the owner of a reference borrowed from the heap)?"""
+    c = op["op"]
+    if c in ("Call", "MethodCall"):
+        return True
+    if c == "SetAttr":
+        return not op.get("is_init") and op.get("attr_rc", True)
+    if c == "CallC":
+        f = op.get("function") or ""
+        return not (f in NON_REBINDING_CALLC or f.startswith(NON_REBINDING_CALLC_PREFIXES))
+    return False
 
 
 class Unmodelled(Exception):
@@ -143,8 +181,46 @@ def flatten(fd: dict) -> Micro:
                         return m
                     out_calls[op["dest"]] = (c, addr_of[s])
 
-    try:
+    # values borrowed from the heap, where they are used, and which ops may rebind their owners
+    heap_borrowed: set[int] = set()
+    type_ptrs = {op["dest"] for b in fd["blocks"] for op in b["ops"]
+                 if op["op"] == "GetElementPtr" and op.get("field") == "ob_type"}
+    for _ in range(4):
         for b in fd["blocks"]:
+            for op in b["ops"]:
+                d = op.get("dest")
+                if d not in var or not op.get("borrowed") or d in heap_borrowed:
+                    continue
+                c = op["op"]
+                if c == "GetAttr":
+                    # a Final attribute has no setter: the borrow lasts as long as the object, which the frame keeps
+                    # alive (KeepAlive) — unless the object itself is only borrowed from the heap
+                    if not op.get("attr_final") or op["obj"] in heap_borrowed:
+                        heap_borrowed.add(d)
+                elif c == "LoadMem":
+                    if op["srcs"] and op["srcs"][0] not in type_ptrs:      # Py_TYPE(x) lives as long as x
+                        heap_borrowed.add(d)
+                elif c == "CallC":
+                    if op.get("function") not in NON_SLOT_BORROW_CALLC:
+                        heap_borrowed.add(d)
+                elif c == "Cast" and any(x in heap_borrowed for x in op["srcs"]):
+                    heap_borrowed.add(d)
+    used_at: dict[int, list[tuple[int, int]]] = {v: [] for v in heap_borrowed}
+    if heap_borrowed:
+        for bi, b in enumerate(fd["blocks"]):
+            for oi, op in enumerate(b["ops"]):
+                for x in op["srcs"]:
+                    if x in heap_borrowed:
+                        used_at[x].append((bi, oi))
+
+    def clobbered_by(bi: int, oi: int) -> list[int]:
+        """heap-borrowed values that may still be read after op (bi, oi) (coarse: any later use in this block or any
+        use in another block)"""
+        return sorted(v for v in heap_borrowed
+                      if any((ub != bi) or (uo > oi) for ub, uo in used_at[v]))
+
+    try:
+        for bi_cur, b in enumerate(fd["blocks"]):
             ops: list[tuple[int, int, int, int]] = []
             term: Any = None
             blk_ops = b["ops"]
@@ -271,6 +347,10 @@ def flatten(fd: dict) -> Micro:
                     for s in stolen:
                         if s in var:
                             ops.append((STEAL_MAYBE if c == "SetAttr" else STEAL, var[s], 0, oi))
+                    if heap_borrowed and may_rebind(op):
+                        for hv in clobbered_by(bi_cur, oi):
+                            ops.append((CLOBBER, var[hv], 0, oi))
+                            idiom("borrow-clobber")
                     d = op.get("dest")
                     if d is not None and d in var:
                         if c == "LoadErrorValue":
@@ -283,6 +363,13 @@ def flatten(fd: dict) -> Micro:
                                 # without an error branch): the slot holds the spilled value — heap invariant, trusted
                                 maybe = False
                                 idiom("spill-read")
+                            elif c == "GetAttr" and op["error_kind"] == ERR_NEVER and not op.get("allow_error_value") \
+                                    and "attr_always_initialized" in op \
+                                    and not (op["attr_always_initialized"] and not op["attr_deletable"]):
+                                # side condition: no error branch follows, but the ClassIR does not guarantee that
+                                # the slot is non-NULL (not always initialised, or deletable)
+                                maybe = True
+                                idiom("getattr-nonfailing-without-guarantee")
                             takeover = False
                             if c == "LoadMem" and op["borrowed"]:
                                 # `old = borrow *p; dec_ref old; … *p = new` (irbuild/vec.py vec_set_item): the
@@ -473,6 +560,8 @@ def step_val(code: int, b: int, c: Any) -> list | None:
         if c == "U":
             return None
         return [] if c == "N" else [c]
+    if code == CLOBBER:
+        return [(c[0], False)] if isinstance(c, tuple) else [c]
     return None
 
 
